@@ -223,6 +223,57 @@ theorem entry_is_pearson_of_scores {L : Type} (lab : List L) (ppf : ℝ → ℝ)
   · by_cases hij : i = j <;> simp [hc, hij]
   · simp [hc]
 
+/-- "unit diagonal for every non-constant (raw) column" holds when the score map
+    `x ↦ ppf(clip(cdf_i(x)))` separates the values of that column (e.g. a strictly increasing fitted
+    CDF that is not saturated by the clip, and a strictly increasing `ppf`).  PARTIAL: this
+    separation is a property of the fitted marginal, an external object; it fails for degenerate
+    marginal fits (see `diag_one_raw_counterexample` and the recorded finding). -/
+theorem diag_one_raw_partial {L : Type} (lab : List L) (ppf : ℝ → ℝ) (cdfs : List (ℝ → ℝ))
+    {X : List (List ℝ)} {n : ℕ} (hX : Rect X n) (hF : cdfs.length = X.length) (c : ℝ) {i : ℕ}
+    (hi : i < X.length)
+    (hnc : ∃ a ∈ X.getD i [], ∃ b ∈ X.getD i [], a ≠ b)
+    (hinj : ∀ a ∈ X.getD i [], ∀ b ∈ X.getD i [],
+      ppf (clip Gen.GaussCorr.clipLo Gen.GaussCorr.clipHi (cdfs.getD i id a))
+        = ppf (clip Gen.GaussCorr.clipLo Gen.GaussCorr.clipHi (cdfs.getD i id b)) → a = b) :
+    entryD 0 (fitModel lab ppf cdfs X c).data i i
+      = 1 + if Gen.GaussCorr.condThreshold < c then Gen.GaussCorr.ridgeConst else 0 := by
+  rw [entry_is_pearson_of_scores lab ppf cdfs hX hF c hi hi]
+  have hlen : (scoreCol ppf cdfs X i).length = n := by
+    rw [scoreCol, List.length_map]; exact hX.getD_length hi
+  have hnc' : ¬ IsConst (vec n (scoreCol ppf cdfs X i)) := by
+    rw [isConst_vec_iff hlen]
+    intro hconst
+    obtain ⟨a, ha, b, hb, hab⟩ := hnc
+    apply hab
+    apply hinj a ha b hb
+    apply hconst
+    · exact List.mem_map.2 ⟨a, ha, rfl⟩
+    · exact List.mem_map.2 ⟨b, hb, rfl⟩
+  rw [rho_self hnc']
+  simp
+
+/-- the raw-column reading of "unit diagonal for every non-constant column" is FALSE of the code
+    for an arbitrary fitted marginal: a marginal whose CDF is saturated on the data (here `≡ 1`)
+    turns the non-constant column `[1, 2]` into a constant score column, and the diagonal entry is
+    `0` (not `1`). -/
+theorem diag_one_raw_counterexample :
+    ∃ (ppf : ℝ → ℝ) (cdfs : List (ℝ → ℝ)) (X : List (List ℝ)),
+      Rect X 2 ∧ cdfs.length = X.length ∧ (∃ a ∈ X.getD 0 [], ∃ b ∈ X.getD 0 [], a ≠ b)
+        ∧ entryD 0 (fitModel [()] ppf cdfs X 0).data 0 0 = 0 := by
+  refine ⟨id, [fun _ => 1], [[1, 2]], ?_, rfl, ⟨1, by simp, 2, by simp, by norm_num⟩, ?_⟩
+  · intro c hc; simp at hc; subst hc; rfl
+  · have hX : Rect [[(1 : ℝ), 2]] 2 := by intro c hc; simp at hc; subst hc; rfl
+    rw [entry_is_pearson_of_scores [()] id [fun _ => 1] hX rfl 0 (by simp) (by simp)]
+    have hconst : IsConst (vec 2 (scoreCol id [fun _ => (1 : ℝ)] [[1, 2]] 0)) := by
+      rw [isConst_vec_iff (by simp [scoreCol])]
+      intro a ha b hb
+      simp [scoreCol] at ha hb
+      rw [ha, hb]
+    rw [(rho_eq_none_iff _ _).2 (Or.inl hconst)]
+    have : ¬ ((Gen.GaussCorr.condThreshold : ℝ) < 0) := by
+      simp [Gen.GaussCorr.condThreshold]
+    simp [this]
+
 /-! ## non-vacuity -/
 
 /-- a rectangular table with a non-constant and a constant column. -/
